@@ -192,7 +192,14 @@ var affines = [][6]float64{
 	{0.8660254037844387, -0.5, 0.5, 0.8660254037844387, 0.1, -0.3},
 	{1.7, 0.3333333333333333, -0.45, 0.9, 1234.5678, -77.7},
 	{-0.7071067811865476, 0.7071067811865476, 0.7071067811865476, 0.7071067811865476, 1e-3, 1e3},
+	// an integer translation far from the origin (the last map; exact, so the
+	// area must stay exact; products of two coordinates exceed 2^53)
+	{1, 0, 0, 1, 1000000007, 123456789},
 }
+
+// farTranslation is the index (1-based) of the translation map: only areas are
+// compared under it (the centroid sums lose digits legitimately there).
+var farTranslation = len(affines)
 
 func affPt(k int, x, y float64) (float64, float64) {
 	if k == 0 {
@@ -405,7 +412,7 @@ func judge(ps []poly, sp [][]spell, asMulti bool, aff int) {
 			viol("op.Area|"+kind+"|wrong", got)
 		}
 	}
-	if allClosed {
+	if allClosed && aff != farTranslation {
 		b := pg.Bounds()
 		inBox := func(c geom.Point) bool {
 			return c.X >= b.Min.X-1e-9 && c.X <= b.Max.X+1e-9 && c.Y >= b.Min.Y-1e-9 && c.Y <= b.Max.Y+1e-9
@@ -536,7 +543,7 @@ func main() {
 		return
 	}
 	rep = report.New("C03", tier, "model_checking")
-	rep.Rule = "E1: catalogue of valid polygons on a 12x12 integer grid (7 shells x all valid subsets of <=2 disjoint holes out of 7) under the FULL orbit of per-ring reversal x start rotation x closed/unclosed spelling (polygons), multi-polygons of 1-3 disjoint members with every subset of <=2(3) rings varied over their full orbit plus whole-geometry reversal; Area for every spelling, Polygon.Centroid/op.Centroid/op.Area on alternately wound spellings, MultiPolygon.Centroid on every closed spelling; all line strings of <=4 points over {0..2}^2 x 49 half-integer query points for Length/Distance/op.Length; Point.Buffer for radius {0,.5,1,1e6} x segments 3..16 x 3 centres. every fifth spelling again under 3 affine maps with non-representable coefficients (area scales by |det|, the centroid maps affinely; relative tolerance 1e-9). The full orbit of every fifth polygon again on one value rewritten in place (history), and every unclosed / every 8th spelling also cut from one flat vertex buffer (layout). Oracle: exact integer shoelace / centroid sums, exact squared distances. Non-trivial = spellings that are not the canonical alternately wound closed one."
+	rep.Rule = "E1: catalogue of valid polygons on a 12x12 integer grid (7 shells x all valid subsets of <=2 disjoint holes out of 7) under the FULL orbit of per-ring reversal x start rotation x closed/unclosed spelling (polygons), multi-polygons of 1-3 disjoint members with every subset of <=2(3) rings varied over their full orbit plus whole-geometry reversal; Area for every spelling, Polygon.Centroid/op.Centroid/op.Area on alternately wound spellings, MultiPolygon.Centroid on every closed spelling; all line strings of <=4 points over {0..2}^2 x 49 half-integer query points for Length/Distance/op.Length; Point.Buffer for radius {0,.5,1,1e6} x segments 3..16 x 3 centres. every fifth spelling again under 3 affine maps with non-representable coefficients and under the integer translation by (1000000007, 123456789) (areas only) (area scales by |det|, the centroid maps affinely; relative tolerance 1e-9). The full orbit of every fifth polygon again on one value rewritten in place (history), and every unclosed / every 8th spelling also cut from one flat vertex buffer (layout). Oracle: exact integer shoelace / centroid sums, exact squared distances. Non-trivial = spellings that are not the canonical alternately wound closed one."
 	cat := catalogue()
 	rep.Set("catalogue_polygons", len(cat))
 	maxVary := 2
